@@ -148,13 +148,34 @@ def _build(run: Run40, xs, vals):
                 run.log("res")
                 run.ctx = saved
 
+        class FalsyRes(Res):
+            def __bool__(self):
+                return False
+
+        from reactivex.disposable import CompositeDisposable
+
+        class EmptyCompositeRes(CompositeDisposable):
+            def __init__(self, s):
+                super().__init__()
+                self.s, self.n = s, 0
+
+            def dispose(self):
+                self.n += 1
+                saved, run.ctx = run.ctx, self.s
+                run.log("res")
+                run.ctx = saved
+                super().dispose()
+
         def resfac():
             run.log("mk")
             if fw == "resfac":
                 raise ResFacErr()
             if fw == "resnone":
                 return None
-            r = Res(run.ctx)
+            # resource profile (like the value profiles): an ordinary truthy disposable, one whose truth value is
+            # False, or a still-empty CompositeDisposable (it defines __len__) that the observable factory fills
+            kind = run.variant.get("resource", "plain")
+            r = {"plain": Res, "falsy_bool": FalsyRes, "empty_composite": EmptyCompositeRes}[kind](run.ctx)
             run.res[run.ctx] = r
             return r
 
@@ -162,6 +183,9 @@ def _build(run: Run40, xs, vals):
             run.log("of", "", 1 if r is run.res.get(run.ctx) else 0)
             if fw == "obsfac":
                 raise ObsFacErr()
+            if isinstance(r, CompositeDisposable):
+                from reactivex.disposable import Disposable
+                r.add(Disposable())      # the inner observable's own handle lives in the resource
             return xs
         return reactivex.using(resfac, obsfac)
     fin = lambda: run.log("fin")
@@ -553,6 +577,10 @@ def variants40(scn, tier, k):
         # quick tier: the two plain realisations always, the others in rotation (each scenario gets about half
         # of them; every realisation still meets thousands of scenarios)
         out = out[:2] + [v for j, v in enumerate(out[2:]) if (h + j) % 2 == 0]
+    if scn["op"] == "using":
+        # every using() scenario meets all three resource profiles; the two always-run realisations get the falsy ones
+        prof = ("falsy_bool", "empty_composite", "plain")
+        out = [dict(v, resource=prof[j % 3]) for j, v in enumerate(out)]
     return out
 
 
